@@ -145,6 +145,9 @@ package nsx
 //vc:func (*rulesPair).diffRules$2
 //vc:  hypothesis[C04] @newRulesHaveIds forall k int :: { l[k] } 0 <= k && k < len(l) ==> l[k].Id != ""
 //vc:  hypothesis[C04] @newRulesAreDistinct forall j int, k int :: { l[j], l[k] } 0 <= j && j < k && k < len(l) ==> l[j] != l[k]
+//vc:  assert[C04] at "ab.writeRule(" @newRuleCreatedWithPut arg1 == "PUT" && arg2 == ru
+//vc:  assert[C04] at "ab.adaptGroup(ru.SourceGroups)" @sourceGroupAdapted arg1 == ru.SourceGroups
+//vc:  assert[C04] at "ab.adaptGroup(ru.DestinationGroups)" @destinationGroupAdapted arg1 == ru.DestinationGroups
 //vc:  invariant[C04] 1 "for _, ru := range l" @unwrittenRulesKeepTheirId -1 <= rangeindex && (forall k int :: { l[k] } rangeindex < k && k < len(l) ==> l[k].Id != "")
 
 // C07, target side: a raw file is accepted only if every policy, group and
@@ -225,3 +228,10 @@ package nsx
 //vc:func (*rulesPair).Equal$1
 //vc:  inline
 //vc:  ensures[C04] @sameReferenceAgrees a == b ==> result
+
+// diffRules: in an equal range the device rule at offset i is paired with the
+// Netspoc rule at the same offset; deleted ranges go to del, inserted ones to ins.
+//vc:func (*rulesPair).diffRules
+//vc:  assert[C04] at "ab.equalizeGroups(ra, rb)" @rulesPairedByOffset arg1 == a.rules[r.LowA + i] && arg2 == b.rules[r.LowB + i]
+//vc:  assert[C04] at "del(a.rules[r.LowA:r.HighA])" @deletedRangeIsDeviceRange true
+//vc:  assert[C04] at "ins(b.rules[r.LowB:r.HighB])" @insertedRangeIsNetspocRange true
